@@ -16,6 +16,9 @@ type MemoMut struct {
 	Kind      string `json:"kind"`
 	Memo      string `json:"memo"`
 	Malformed bool   `json:"malformed"` // certainly not a well-formed orbiter payload
+	// Unroutable: the parser may accept it, but the transfer cannot be executed (the forwarding
+	// or the fee names no destination): end to end it must be refused
+	Unroutable bool `json:"unroutable,omitempty"`
 	Denom     string `json:"denom"`
 }
 
@@ -112,8 +115,15 @@ func MutateMemo(tpl MemoTemplate) []MemoMut {
 	}
 	var out []MemoMut
 	add := func(site jm.Site, kind string, doc *jm.Node) {
+		unroutable := false
+		if kind == "delete" || kind == "null" || kind == "strempty" {
+			switch site.Key {
+			case "recipient", "mint_recipient", "token_id":
+				unroutable = true
+			}
+		}
 		out = append(out, MemoMut{Template: tpl.Name, Site: site.Name, Kind: kind, Memo: doc.String(),
-			Malformed: certainMalformed(site, kind), Denom: tpl.Denom})
+			Malformed: certainMalformed(site, kind), Unroutable: unroutable, Denom: tpl.Denom})
 	}
 	for _, st := range jm.Sites(root) {
 		if len(st.Path) == 0 {
